@@ -235,6 +235,7 @@ class Target(object):
         self.pos = 0
         self.done = False
         self.truth = {}     # gate position -> {id(frame): [(mgr, exiting)]}
+        self.facts = {}     # gate position -> {id(frame): (f_lasti, saved stack pointer, frame)}
         self.codes = set()
         self.script = script
         self.thread = threading.Thread(target=self._body)
@@ -300,6 +301,11 @@ class Target(object):
     def start(self):
         self.thread.start()
         self.reached.acquire()
+        self.record()
+
+    def record(self):
+        # the target is parked: read the facts of its frames at this position
+        self.facts[self.pos] = {} if self.done else frame_facts(self.thread)
 
     def advance(self, j):
         for _ in range(j):
@@ -307,6 +313,7 @@ class Target(object):
                 return
             self.go.release()
             self.reached.acquire()
+            self.record()
 
     def finish(self):
         while not self.done:
@@ -439,56 +446,97 @@ SCRIPTS = [script0, script1, script2, script3]
 
 
 
-def install_snapshot_invariant(problems):
-    """Oracle at the boundary of lowlevel.inspect_frame (3.11+), for targets that only move inside
-    hook callbacks: when inspect_frame returns, the target is parked again and the frame's own state
-    (f_lasti, saved stack pointer) is the state the accepted snapshot claims to describe.  The number
-    of value-stack slots is re-derived independently from that state: the saved stack pointer if the
-    frame has one, otherwise (frame executing, stacktop == -1) the depth of the exception-table entry
-    covering f_lasti (stdlib dis parser).  A different length means the extent of one position was
-    combined with the f_lasti of another."""
-    import ctypes
+def frame_facts(thread):
+    """Ground truth read by the *controller* while the target is parked (quiescent): for every frame
+    on the target thread's stack its f_lasti and saved stack pointer (ctypes read of the interpreter
+    frame; -1 = executing, i.e. parked in a C-level call made directly from that frame)."""
+    facts = {}
+    if sys.version_info < (3, 11):
+        return facts
+    from stackscope import _lowlevel_cpython_311 as impl
+    f = sys._current_frames().get(thread.ident)
+    while f is not None:
+        try:
+            iframe = impl.FrameObject.from_address(id(f)).f_frame.contents
+            facts[id(f)] = (f.f_lasti, iframe.stacktop, f)
+        except Exception:
+            pass
+        f = f.f_back
+    return facts
+
+
+def install_snapshot_oracle(problems, state):
+    """Oracle at the boundary of lowlevel.inspect_frame (3.11+) for targets that only move inside hook
+    callbacks.  The controller records, at every gate position, the facts of every target frame
+    (frame_facts).  A snapshot returned for frame f must equal what *one* position p between the
+    position at which the extraction started and the current one implies for f:
+      number of value-stack slots = saved stack pointer - nlocalsplus, or (executing frame) the depth
+                                    of the exception-table entry covering f_lasti at p;
+      handler chain               = the chain obtained from f_lasti at p (stdlib dis parser).
+    Extent from one position combined with f_lasti / handlers of another matches no p."""
     import dis
     from stackscope import _lowlevel as LL
     LL.inspect_frame(sys._getframe(0))   # resolve the lazy implementation import
     orig = LL.inspect_frame
-    counter = {"checked": 0, "executing": 0}
+    counter = {"checked": 0, "executing": 0, "frame_gone": 0}
     if sys.version_info < (3, 11):
         return counter
-    from stackscope import _lowlevel_cpython_311 as impl
+    cache = {}
 
-    def expected_len(frame):
-        co = frame.f_code
-        raw = impl.FrameObject.from_address(id(frame))
-        iframe = raw.f_frame.contents
-        if iframe.owner == impl.FRAME_OWNED_BY_FRAME_OBJECT:
-            return None
+    def table(co):
+        t = cache.get(co)
+        if t is None:
+            t = cache[co] = list(dis._parse_exception_table(co))
+        return t
+
+    def implied(co, lasti, stacktop):
         nlocalsplus = len(set(co.co_varnames + co.co_cellvars)) + len(co.co_freevars)
-        st = iframe.stacktop
-        if st != -1:
-            return st - nlocalsplus, False
-        lasti = frame.f_lasti
-        for e in dis._parse_exception_table(co):
-            if e.start <= lasti < e.end:
-                return e.depth, True
-        return 0, True
+        chain = []
+        cur = lasti
+        for _ in range(64):
+            for e in table(co):
+                if e.start <= cur < e.end:
+                    chain.append(e.target)
+                    cur = e.target
+                    break
+            else:
+                break
+        chain.reverse()
+        if stacktop != -1:
+            n = stacktop - nlocalsplus
+        else:
+            n = 0
+            for e in table(co):
+                if e.start <= lasti < e.end:
+                    n = e.depth
+                    break
+        return n, chain
 
     def checked(frame):
         d = orig(frame)
-        try:
-            exp = expected_len(frame)
-        except Exception:
-            exp = None
+        tgt = state.get("target")
+        if tgt is None:
+            return d
         counter["checked"] += 1
-        if exp is not None:
-            want, executing = exp
-            if executing:
+        cands = []
+        for p in range(state["p_before"], tgt.pos + 1):
+            fct = tgt.facts.get(p, {}).get(id(frame))
+            if fct is not None and fct[2] is frame:
+                cands.append((p,) + fct[:2])
+        if not cands or id(frame) not in tgt.facts.get(tgt.pos, {}):
+            counter["frame_gone"] += 1   # frame left the target's stack meanwhile: not judged
+            return d
+        got = (len(d.stack), [b.handler for b in d.blocks])
+        for p, lasti, stacktop in cands:
+            if stacktop == -1:
                 counter["executing"] += 1
-            if len(d.stack) != want and len(problems) < 5:
-                problems.append("inspect_frame(%s): snapshot has %d value-stack slots, the frame's state when it "
-                                "returned (f_lasti=%d, %s) has %d" % (
-                                    frame.f_code.co_name, len(d.stack), frame.f_lasti,
-                                    "executing" if executing else "saved stack pointer", want))
+            if got == tuple(implied(frame.f_code, lasti, stacktop)):
+                return d
+        if len(problems) < 5:
+            problems.append("inspect_frame(%s) returned %d stack slots with handler chain %r; no single position in "
+                            "[%d, %d] implies that: %r" % (
+                                frame.f_code.co_name, got[0], got[1], state["p_before"], tgt.pos,
+                                [(p,) + tuple(implied(frame.f_code, l, st)) for p, l, st in cands][:4]))
         return d
 
     LL.inspect_frame = checked
@@ -512,7 +560,8 @@ def schedules_leg(spec, res):
     boot = {getattr(threading.Thread, n).__code__ for n in ("run", "_bootstrap", "_bootstrap_inner")
             if hasattr(threading.Thread, n)}
     snapshot_problems = []
-    snap_counter = install_snapshot_invariant(snapshot_problems)
+    snap_state = {}
+    snap_counter = install_snapshot_oracle(snapshot_problems, snap_state)
 
     # number of gates
     t = Target(script)
@@ -529,14 +578,19 @@ def schedules_leg(spec, res):
     def on_point(name, *info):
         if threading.current_thread() is not threading.main_thread():
             return
-        if name not in ("attempt_start", "slot", "after_was_alive", "after_current_frames"):
+        if name not in ("attempt_start", "slot", "snapshot_accepted", "after_was_alive", "after_current_frames"):
             return
-        PLAN["fired"] += 1
         PLAN["kinds"][name] = PLAN["kinds"].get(name, 0) + 1
         if name == "attempt_start":
             PLAN["attempts"].setdefault(id(info[0]), 0)
             PLAN["attempts"][id(info[0])] += 1
         tgt = PLAN["target"]
+        # firings are numbered over the interesting ones only: the thread-level points and the
+        # snapshot points of the target's *own* functions (not the thread bootstrap frames)
+        if name in ("attempt_start", "slot", "snapshot_accepted") and info[0].f_code not in tgt.codes:
+            if not PLAN["every"]:
+                return
+        PLAN["fired"] += 1
         if PLAN["every"] or PLAN["fired"] == PLAN["fire_at"]:
             before = tgt.pos
             tgt.advance(PLAN["j"])
@@ -564,6 +618,7 @@ def schedules_leg(spec, res):
         tgt.start()
         tgt.advance(park - 1)
         p_before = tgt.pos
+        snap_state.update(target=tgt, p_before=p_before)
         PLAN.clear()
         PLAN.update(fire_at=fire_at, j=j, fired=0, every=every, target=tgt, kinds={}, attempts={}, moved=False,
                     decoy=decoy)
@@ -583,6 +638,7 @@ def schedules_leg(spec, res):
             sys.stderr = old
             _verifhooks.callback = None
         p_after = tgt.pos
+        snap_state["target"] = None
         res.evaluations += 1
         res.count("schedules")
         if PLAN["moved"]:
@@ -618,12 +674,15 @@ def schedules_leg(spec, res):
                 # per-frame consistency: contexts equal the shadow fold of that frame at ONE position in range
                 got = [(c.obj, c.is_exiting) for c in fr.contexts]
                 ok = False
+                # What the low-level snapshot (value stack + handler chain) determines is the list of
+                # entered, non-exiting managers; the *exiting* entry is derived afterwards from a fresh
+                # read of f_lasti and from the next frame of a frame list walked at another moment, so
+                # when the target moved it is not part of this frame's snapshot and is not judged here.
+                got_ne = [a[0] for a in got if not a[1]]
                 for pos in range(p_before, p_after + 1):
                     want = tgt.truth.get(pos, {}).get(id(fr.pyframe), [])
-                    # (the obj of an *exiting* context is inferred from the next frame of the frame
-                    # list, which was walked at another moment: not part of this frame's snapshot)
-                    if len(want) == len(got) and all((a[0] is b[0] or (a[1] and b[1])) and a[1] == b[1]
-                                                     for a, b in zip(got, want)):
+                    want_ne = [b[0] for b in want if not b[1]]
+                    if len(want_ne) == len(got_ne) and all(a is b for a, b in zip(got_ne, want_ne)):
                         ok = True
                         break
                 if not ok and not iw:
@@ -662,6 +721,7 @@ def schedules_leg(spec, res):
         run_case(*c)
     res.count("inspect_frame_snapshots_checked", snap_counter["checked"])
     res.count("inspect_frame_snapshots_of_executing_frames", snap_counter["executing"])
+    res.count("inspect_frame_snapshots_frame_gone_not_judged", snap_counter["frame_gone"])
     res.sample({"leg": "schedules", "script": spec["script"], "gates": ngates, "cases": len(cases)})
     return res
 
